@@ -65,6 +65,10 @@ NUMERIC = {
         dict(name='geometric', file='polyply/src/topology.py', func='geometric_rule',
              params=[('C6_A', 'S'), ('C6_B', 'S'), ('C12_A', 'S'), ('C12_B', 'S')], ret=('T', 'S', 'S')),
     ],
+    'Gen_box': [
+        dict(name='box_edge', file='polyply/src/build_system.py', func='_compute_box_size', kind='assign_rhs',
+             var='box', params=[('total_mass', 'S'), ('density', 'S')], ret='S'),
+    ],
     'Gen_backmap': [
         dict(name='place_atom', file='polyply/src/backmap.py', func='Backmap._place_init_coords',
              kind='assign_rhs', var='new_coords',
@@ -103,6 +107,10 @@ DATA = {
     'Gen_build': [
         dict(name='cleanup_all', kind='cleanup_arg', file='polyply/src/build_system.py',
              func='BuildSystem._handle_random_walk'),
+    ],
+    'Gen_boxsel': [
+        dict(name='box_choice', kind='option_chain', file='polyply/src/gen_coords.py', func='gen_coords', var='box'),
+        dict(name='init_box', kind='init_box', file='polyply/src/build_system.py', func='BuildSystem.__init__'),
     ],
     'Gen_engine_consts': [
         dict(name='tree_threshold', kind='int_compare_const', file='polyply/src/nonbond_engine.py',
